@@ -11,7 +11,7 @@ use vpmodel::gen::{self, Tier, BS};
 use vpmodel::hashes::hash160;
 use vpmodel::oracle::{aggregate_unspent, balances_rowset, check_balances, check_unspent};
 use vpmodel::run::{Callback, RunOpts};
-use vpmodel::spec::{BlockSpec, ChainSpec, InSpec, OutSpec, Src, TxSpec};
+use vpmodel::spec::{mono, BlockSpec, ChainSpec, InSpec, OutSpec, Src, TxSpec};
 
 pub const C07: PropDef = PropDef {
     id: "C07",
@@ -25,7 +25,7 @@ pub const C07: PropDef = PropDef {
 pub const C08: PropDef = PropDef {
     id: "C08",
     level: "exploration",
-    rule: "the histories of C07 with a small pool of keys so that addresses recur (many outputs per address, the same key paid as P2PK and P2PKH, addresses emptied and re-funded), values bounded so that sums fit u64; plus two histories with 70 000 / 131 500 unspent outputs over 7 addresses. Oracle 1: balances-S-E.csv = header + exactly one row per address of the reference aggregation (exact u128 sums); oracle 2 (model-free): the per-address aggregation of the unspent-S-E.csv produced by unspentcsvdump on the same directory and range equals the balances file. Non-trivial = some address with >=2 unspent outputs and some address that was funded and is fully spent; distinct by history hash.",
+    rule: "the histories of C07 with a small pool of keys so that addresses recur (many outputs per address, the same key paid as P2PK and P2PKH, addresses emptied and re-funded), values bounded so that sums fit u64 (a fifth of the histories carry 1..3 outputs of 3*10^18..1.6*10^19 units paid to one key, so that 20-digit balances occur); plus two histories with 70 000 / 131 500 unspent outputs over 7 addresses. Oracle 1: balances-S-E.csv = header + exactly one row per address of the reference aggregation (exact u128 sums); oracle 2 (model-free): the per-address aggregation of the unspent-S-E.csv produced by unspentcsvdump on the same directory and range equals the balances file. Non-trivial = some address with >=2 unspent outputs and some address that was funded and is fully spent; distinct by history hash.",
     assumptions: &["value sums fit u64 (generator bound)", "an address whose unspent outputs are all zero-valued is listed with balance 0, as the statement says"],
     run: run_c08,
     replay: replay_c08,
@@ -108,9 +108,54 @@ pub fn random_strategy(tier: Tier, few_keys: bool) -> BS<Case> {
             cfg.tx.max_value = 2_100_000_000_000_000 / 4;
             cfg.tx.src = prop_oneof![10 => any::<u16>().prop_map(Src::Known), 2 => (60_000u16..=u16::MAX).prop_map(Src::Known), 1 => (any::<u8>(), 0u32..3).prop_map(|(s, i)| Src::Unknown(s, i))].boxed();
             cfg.time = gen::monotonic_time();
-            (gen::chain(&cfg), proptest::option::weighted(0.35, any::<u16>()), proptest::option::weighted(0.35, any::<u16>())).prop_map(|(chain, start_sel, end_sel)| Case { chain, start_sel, end_sel })
+            let huge = proptest::option::weighted(0.2, (10_000_000_000_000_000_000u64..=16_000_000_000_000_000_000u64, 1u8..=3, any::<[u16; 3]>(), 0u8..5, any::<u8>()));
+            (gen::chain(&cfg), proptest::option::weighted(0.35, any::<u16>()), proptest::option::weighted(0.35, any::<u16>()), huge).prop_map(move |(mut chain, start_sel, end_sel, huge)| {
+                if let Some((total, parts, sel, key, form)) = huge {
+                    chain = with_huge_values(chain, total, parts, sel, pool_script(coin, key, form % 4));
+                }
+                Case { chain, start_sel, end_sel }
+            })
         })
         .boxed()
+}
+
+/// Gives 1..3 outputs of the history values that add up to `total` (10^19 .. 1.6*10^19: a 20-digit balance
+/// that still fits u64) and pays them to one script. The change is dropped when the sum of ALL output values
+/// of the built chain (duplicates counted) would no longer fit u64.
+fn with_huge_values(chain: ChainSpec, total: u64, parts: u8, sel: [u16; 3], script: Vec<u8>) -> ChainSpec {
+    let mut c = chain.clone();
+    let mut pos = Vec::new();
+    for (bi, b) in c.blocks.iter().enumerate() {
+        if b.coinbase.outputs.len() > 1000 || b.txs.iter().any(|t| t.outputs.len() > 1000) {
+            return chain;
+        }
+        for oi in 0..b.coinbase.outputs.len() {
+            pos.push((bi, usize::MAX, oi));
+        }
+        for (ti, t) in b.txs.iter().enumerate() {
+            if t.dup_of.is_none() {
+                for oi in 0..t.outputs.len() {
+                    pos.push((bi, ti, oi));
+                }
+            }
+        }
+    }
+    if pos.is_empty() {
+        return chain;
+    }
+    let parts = parts.max(1) as u64;
+    for k in 0..parts {
+        let (bi, ti, oi) = pos[mono(sel[k as usize], pos.len())];
+        let o = if ti == usize::MAX { &mut c.blocks[bi].coinbase.outputs[oi] } else { &mut c.blocks[bi].txs[ti].outputs[oi] };
+        o.value = total / parts + if k == 0 { total % parts } else { 0 };
+        o.script = script.clone();
+    }
+    let built = c.build();
+    let sum: u128 = built.blocks.iter().flat_map(|(_, b)| b.txs.iter()).flat_map(|t| t.outputs.iter()).map(|o| o.value as u128).sum();
+    if sum > u64::MAX as u128 {
+        return chain;
+    }
+    c
 }
 
 /// bounded-exhaustive small histories
@@ -354,6 +399,9 @@ pub fn check_c08(c: &Case) -> Verdict {
         if f {
             classes.push(n.into());
         }
+    }
+    if vpmodel::render::balances(built.coin, &range).values().any(|v| *v >= 10_000_000_000_000_000_000u128) {
+        classes.push("balance>=10^19".into());
     }
     let sample = serde_json::json!({"coin": built.coin.cli(), "range": format!("{}..={}", s, e), "balances": vpmodel::render::balances(built.coin, &range).iter().take(4).map(|(a, v)| format!("{};{}", a, v)).collect::<Vec<_>>()});
     Verdict::Pass(Pass { nontrivial: a.multi_out_addr && a.emptied_addr, key: key_of(c), classes, known: vec![], sub_evals: 2, sample: Some(sample), extra_keys: vec![] })
